@@ -7,20 +7,18 @@ cd $wt || exit 3
 demo=$(git status --porcelain | awk '{print $2}' | grep 'zz_seeded_demo_test.go' | head -1)
 [ -n "$demo" ] || { echo "no demo file"; exit 3; }
 pkg=./$(dirname $demo)
-mkdir -p /tmp/seeded-aside && rm -rf /tmp/seeded-aside/*
-mv SEEDED /tmp/seeded-aside/SEEDED; mv $demo /tmp/seeded-aside/demo_test.go
-git diff > /tmp/seeded-aside/patch.diff
-echo "--- patch:"; cat /tmp/seeded-aside/patch.diff | head -60
+aside=/tmp/seeded-aside-$(basename $wt); mkdir -p $aside && rm -rf $aside/*
+mv SEEDED $aside/SEEDED; mv $demo $aside/demo_test.go
+git diff > $aside/patch.diff
+echo "--- patch:"; cat $aside/patch.diff | head -60
 echo "--- build + existing tests WITH the change"
 go build ./... && go test -vet=off -count=1 ./... 2>&1 | grep -v 'no test files' | grep -v '^ok' ; echo "suite-exit=$?(grep)"
-cp /tmp/seeded-aside/demo_test.go $demo
+cp $aside/demo_test.go $demo
 echo "--- demo WITH the change (must fail)"
 go test -vet=off -count=1 -run 'Seeded' $pkg 2>&1 | tail -5
 echo "--- demo WITHOUT the change (must pass)"
-git stash -q
-cp /tmp/seeded-aside/demo_test.go $demo
+# (no git stash: the stash is shared by all worktrees of a repository)
+git apply -R $aside/patch.diff || { echo "cannot revert patch"; exit 3; }
 go test -vet=off -count=1 -run 'Seeded' $pkg 2>&1 | tail -3
-rm -f $demo
-git stash pop -q
-cp /tmp/seeded-aside/demo_test.go $demo
-mv /tmp/seeded-aside/SEEDED SEEDED
+git apply $aside/patch.diff
+mv $aside/SEEDED SEEDED
